@@ -390,6 +390,9 @@ func strMatch(L *LState) int {
 	offset--
 	if offset < 0 {
 		offset = 0
+	} else if offset > l {
+		// as in lstrlib.c, a start position beyond the end of the string is the end
+		offset = l
 	}
 
 	mds, err := pm.Find(pattern, unsafeFastStringToReadOnlyBytes(str), offset, 1)
@@ -398,7 +401,7 @@ func strMatch(L *LState) int {
 	}
 	if len(mds) == 0 {
 		L.Push(LNil)
-		return 0
+		return 1
 	}
 	md := mds[0]
 	nsubs := md.CaptureLength() / 2
